@@ -6,6 +6,7 @@ and a scripted writer, calls compile() once and returns an Outcome holding the r
 the exception objects that were injected.  The import graph is carried by tiny *real* MIB texts.
 """
 import hashlib
+import json
 
 from hypothesis import strategies as st
 
@@ -93,6 +94,9 @@ def run(sc, budget=None):
     out = Outcome()
     log = out.log
     limit = budget or (400 * (len(sc['universe']) + 3))
+    # MibInfo.path is a display label with no meaning for compile(): a third of the scenarios (a function of the scenario, so
+    # that replays agree) use readers which, like the package's CallbackReader, report one constant path for every module
+    const_path = sc.get('const_path', hash_int(json.dumps(sc, sort_keys=True, default=str)) % 3 == 0)
 
     class Runaway(BaseException):
         pass
@@ -123,7 +127,8 @@ def run(sc, budget=None):
                 exc = error.PySmiReaderError('reader %d broke on %s' % (self.idx, name), reader=self)
                 out.injected[(self.kind, self.idx, name)] = exc
                 raise exc
-            info = MibInfo(path='%s%d://%s' % (self.kind, self.idx, name), file=name + '.txt', name=name,
+            info = MibInfo(path='file:///dev/stdin' if const_path and self.kind == 'read' else '%s%d://%s' % (self.kind, self.idx, name),
+                           file=name + '.txt', name=name,
                            mtime=file_mtime(sc, self.kind, self.idx, name))
             if self.kind == 'borrow':
                 text = 'BORROWED<%s>#%d' % (name, self.idx)
